@@ -250,7 +250,7 @@ func (g *Gen) TranslateFunction(fn *ssa.Function, c *Contract) *FT {
 	var loopMod map[*ssa.BasicBlock]map[string]bool
 	var ft *FT
 	for pass := 1; pass <= 2; pass++ {
-		ft = &FT{g: g, fn: fn, name: fn.String(), c: c, ssorts: map[string]string{}, assumed: map[string]bool{}, havoced: map[string]bool{}, inlined: map[string]bool{},
+		ft = &FT{g: g, fn: fn, name: ftName(fn, c), c: c, ssorts: map[string]string{}, assumed: map[string]bool{}, havoced: map[string]bool{}, inlined: map[string]bool{},
 			modular: map[string]bool{}, kindCnt: map[string]int{}, loopMod: loopMod, pass: pass, written: map[*ssa.BasicBlock]map[string]bool{}, init0: map[string]string{}, axUsed: map[string]bool{}}
 		ft.run()
 		if pass == 1 {
@@ -355,6 +355,15 @@ func (ft *FT) run() {
 	// parameters
 	for _, p := range fn.Params {
 		v := ft.inputVal("p_"+p.Name(), p.Type(), st)
+		if ft.c != nil && ft.c.SpecDyn != nil {
+			if _, isIface := p.Type().Underlying().(*types.Interface); isIface {
+				// specialised verification: this interface parameter has the given dynamic type
+				v.DynT = ft.c.SpecDyn
+				ft.fact(fmt.Sprintf("(= (itag %s) %d)", v.T, ft.g.reg.Tag(ft.c.SpecDyn)))
+				nx := ft.stateGet(ft.entry, "$next", "Int")
+				ft.fact(fmt.Sprintf("(and (<= 0 (ipl %s)) (< (ipl %s) %s))", v.T, v.T, nx))
+			}
+		}
 		fr.vals[p] = v
 	}
 	for _, fv := range fn.FreeVars {
@@ -612,6 +621,11 @@ func (fr *frame) specEnv(st, old *State, results []Val) *Env {
 	}
 	if fr.fn.Pkg != nil {
 		env.pkg = fr.fn.Pkg.Pkg
+	}
+	if fr.c != nil && fr.c.SpecDyn != nil {
+		if fp := ft.g.filePkg(fr.c.File); fp != nil {
+			env.pkg = fp // a specialised contract speaks the vocabulary of the package that states it
+		}
 	}
 	for i, p := range fr.fn.Params {
 		v := fr.vals[p]
@@ -931,10 +945,7 @@ func (fr *frame) doPhi(phi *ssa.Phi, preds []*ssa.BasicBlock, guards []string, s
 func (fr *frame) loopHeader(h *ssa.BasicBlock, body map[*ssa.BasicBlock]bool, st *State, reach string) *State {
 	ft := fr.ft
 	ord := fr.loopOrd[h]
-	var invs []*Clause
-	if fr.c != nil {
-		invs = fr.c.Loops[ord]
-	}
+	invs := fr.loopInvs(ord)
 	// inv-init
 	for i, cl := range invs {
 		env := fr.invEnv(h, st)
@@ -1034,10 +1045,7 @@ func (fr *frame) backEdge(src, h *ssa.BasicBlock, st *State) {
 	if guard == "" {
 		return
 	}
-	var invs []*Clause
-	if fr.c != nil {
-		invs = fr.c.Loops[ord]
-	}
+	invs := fr.loopInvs(ord)
 	for _, lf := range fr.loopFrames[h] {
 		cur := ft.stateGet(st, lf.name, lf.sort)
 		ft.addObl(fr, "inv-pres", fmt.Sprintf("%sL%d.frame(%s)", fr.tag, ord, strings.TrimPrefix(lf.name, "H|")), guard,
@@ -1149,6 +1157,20 @@ func (fr *frame) invEnv(h *ssa.BasicBlock, st *State) *Env {
 			env.vars[name] = SV{fr.plain(v, st), goT(pick.v.Type())}
 		}
 	}
+	// map range: $rem = the set of keys not yet visited (ghost)
+	for _, in := range h.Instrs {
+		if nx, ok := in.(*ssa.Next); ok && !nx.IsString {
+			if rng, ok := nx.Iter.(*ssa.Range); ok {
+				if name, ok := fr.iterName()[rng]; ok {
+					if mt, ok := rng.X.Type().Underlying().(*types.Map); ok {
+						ks, _, _ := fr.mapSorts(mt)
+						rs := "(Array " + ks + " Bool)"
+						env.vars["$rem"] = SV{fr.ft.stateGet(st, name, rs), &SType{MapK: goT(mt.Key()), MapV: tBool}}
+					}
+				}
+			}
+		}
+	}
 	// range index of this header
 	for _, in := range h.Instrs {
 		phi, ok := in.(*ssa.Phi)
@@ -1159,6 +1181,20 @@ func (fr *frame) invEnv(h *ssa.BasicBlock, st *State) *Env {
 			if phi.Comment == "rangeindex" {
 				// $i = number of completed iterations = index of the next element
 				env.vars["$i"] = SV{"(+ " + v.T + " 1)", tInt}
+				// $range = the slice being ranged over (found as the operand indexed by rangeindex+1)
+				for _, ref := range *phi.Referrers() {
+					bo, ok := ref.(*ssa.BinOp)
+					if !ok {
+						continue
+					}
+					for _, r2 := range *bo.Referrers() {
+						if ia, ok := r2.(*ssa.IndexAddr); ok && ia.Index == ssa.Value(bo) {
+							if xv, ok := fr.vals[ia.X]; ok {
+								env.vars["$range"] = SV{fr.plain(xv, st), goT(ia.X.Type())}
+							}
+						}
+					}
+				}
 			} else if phi.Comment != "" {
 				env.vars[phi.Comment] = SV{fr.plain(v, st), goT(phi.Type())}
 			}
@@ -1198,4 +1234,24 @@ func (fr *frame) valDominates(a, b ssa.Value) bool {
 		}
 	}
 	return ai.Block().Dominates(bi.Block())
+}
+
+func ftName(fn *ssa.Function, c *Contract) string {
+	if c != nil && c.SpecDyn != nil {
+		return c.Key
+	}
+	return fn.String()
+}
+
+func (fr *frame) loopInvs(ord int) []*Clause {
+	if fr.c == nil {
+		return nil
+	}
+	invs := fr.c.Loops[ord]
+	if len(invs) == 0 && fr.c.SpecDyn != nil {
+		if base := fr.ft.g.db.Contracts[fr.c.BaseKey]; base != nil {
+			invs = base.Loops[ord]
+		}
+	}
+	return invs
 }
